@@ -807,6 +807,8 @@ class Sym:
                 return self.ev(args[0], env) if args else None
             if k == "CXXOperatorCallExpr" and n.get("op") in ("*", "->"):
                 return self.ev(obj, env)
+            if name == "value" and obj is not None:
+                return self.ev(obj, env)
             return TOP
         # ---- manif callee: inline --------------------------------------------------------
         if n.get("inrepo"):
